@@ -54,6 +54,19 @@ def make_cases(ctx):
                         arr = [rng.randint(lo, hi) for _ in range(N)]
                         cases.append({'arr': arr, 'L': L, 'initial': initial, 'final': final, 'offset': off,
                                       'din': din, 'dout': dout, 'dlen': dlen})
+    # extreme values of the widest pairing: uint64 counts into a uint64 output whose partial sums and total reach the upper
+    # half of the range (>= 2^63) and stay below 2^64 — every cell and the returned grand total must still be exact
+    for N in (1, 2, 3, 7):
+        for initial, final in itertools.product([False, True], repeat=2):
+            L = N - 1 + int(initial) + int(final)
+            if L < 0:
+                continue
+            for off in (0, 5):
+                big = 2 ** 63 + rng.randrange(0, 2 ** 40)
+                arr = [big] + [rng.randrange(0, 2 ** 50) for _ in range(N - 1)]
+                rng.shuffle(arr)
+                cases.append({'arr': arr, 'L': L, 'initial': initial, 'final': final, 'offset': off,
+                              'din': 'uint64', 'dout': 'uint64', 'dlen': 0})
     return cases
 
 
